@@ -1,22 +1,27 @@
 package main
 
-import "fmt"
+import (
+	"fmt"
+	"go/ast"
+	"os"
+)
 
 func init() {
 	register("DBG", "debug", func(c *Ctx, r *Report) {
-		for _, e := range c.T.Order {
-			eng := c.T.Engines[e]
-			fmt.Printf("engine %s: partials=%d ext=%d reads=%d helpers=%d invokes=%d problems=%d unused=%v\n", e, len(eng.Partials), len(eng.Extensions), len(eng.Reads), len(eng.Helpers), len(eng.Invokes), len(eng.Problems), eng.UnusedVars)
-			for _, p := range eng.Problems {
-				fmt.Println("   ", p)
+		fn := os.Getenv("DBG_FN")
+		fi := c.W.fn(fn)
+		if fi == nil { fmt.Println("no fn", fn); return }
+		g := c.W.cfgOf(fi)
+		fmt.Println(g.Format(c.W.Fset))
+		for _, b := range g.Blocks { fmt.Println(b.Index, b.Kind, b.Stmt != nil, len(b.Succs)) }
+		ast.Inspect(fi.Decl, func(n ast.Node) bool {
+			if cl, ok := n.(*ast.CallExpr); ok {
+				fmt.Println(c.W.pos(cl.Pos()), calleeOfCall(fi.Pkg.TypesInfo, cl))
+				for _, a := range cl.Args { fmt.Println("    arg atoms:", c.W.exprAtoms(fi, a)) }
 			}
-		}
-		seen := map[string]bool{}
-		for _, rd := range c.T.Engines["gin"].Reads {
-			k := fmt.Sprintf("%v", rd.Fields)
-			if !seen[k] { seen[k] = true; fmt.Println("  read", rd.Tpl, rd.Path, rd.Fields, rd.Type) }
-		}
-		for k, h := range c.T.Helpers { fmt.Println(" helper", k, h.NumIn, h.HasOptions, h.ParamTypes) }
+			return true
+		})
+		if os.Getenv("DBG_SSA") != "" { fi.SSA.WriteTo(os.Stdout) }
 		r.add("DBG", "debug", "x", "x", nil, nil, "")
 	})
 }
